@@ -1,5 +1,6 @@
 import PyPhysim.Proofs.C19Final
 import PyPhysim.Proofs.C19Sec3
+import PyPhysim.Proofs.C19State
 import PyPhysim.Generated.C19Tables
 
 /-!
@@ -376,6 +377,97 @@ theorem points_in_circle_range (rmax rmin u v : ℝ) (h1 : rmin ≤ rmax) (hu' :
     rmin ≤ ppRadius rmax rmin u ∧ ppRadius rmax rmin u ≤ rmax :=
   ⟨ppCircle_norm rmax rmin u v, ppRadius_range rmax rmin u h1 hu'⟩
 end real
+
+/-! ## cell objects under setter histories: no stale derived state -/
+
+section state
+variable {α : Type} [Field α] [LinearOrder α] [IsStrictOrderedRing α] [Circ α]
+
+/-- **No stale derived state.**  For every cell class (`Cell`, `Cell3Sec` with its three sector
+    cells, `CellSquare` with its stored corners) and every history of `pos` / `radius` / `rotation`
+    setter calls (radii positive), the stored state equals the state of a freshly constructed cell
+    with the current position, radius and rotation — which are the values the last setters wrote. -/
+theorem no_stale_state (k : CellKind) (hs : 0 < Circ.sqrt ((2 : ℕ) : α)) (ops : List (CellOp α)) (p : Pt α)
+    (R θ : α) (hR : 0 < R) (hok : OpsOk ops) :
+    let st := run (fresh k p R θ) ops
+    st = fresh k st.pos st.radius st.rot ∧ (st.pos, st.radius, st.rot) = params p R θ ops := by
+  intro st
+  have h1 := (run_fresh k hs ops p R θ hR hok).1
+  have h2 := (run_fields (fresh k p R θ) ops).1
+  have hp : params (fresh k p R θ).pos (fresh k p R θ).radius (fresh k p R θ).rot ops = params p R θ ops := by
+    cases k <;> rfl
+  rw [hp] at h2
+  refine ⟨?_, h2⟩
+  have e1 : st.pos = (params p R θ ops).1 := congrArg Prod.fst h2
+  have e2 : st.radius = (params p R θ ops).2.1 := congrArg (fun x => x.2.1) h2
+  have e3 : st.rot = (params p R θ ops).2.2 := congrArg (fun x => x.2.2) h2
+  rw [e1, e2, e3]
+  exact h1
+
+/-- … hence **every query** after the history — vertices, containment, border point, whole-cell
+    random placement, the sector cells (positions, radii, rotations) and per-sector placement —
+    is the query on the freshly constructed cell. -/
+theorem queries_after_history_are_fresh (k : CellKind) (hs : 0 < Circ.sqrt ((2 : ℕ) : α))
+    (ops : List (CellOp α)) (p : Pt α) (R θ : α) (hR : 0 < R) (hok : OpsOk ops)
+    (inside : List (Pt α) → Pt α → Bool) :
+    let st := run (fresh k p R θ) ops
+    let fr := fresh k st.pos st.radius st.rot
+    stVerts st = stVerts fr ∧ (∀ q, stInside inside st q = stInside inside fr q) ∧
+    (∀ ang ratio, stBorder st ang ratio = stBorder fr ang ratio) ∧
+    (∀ ratio us, stRandomUser inside st ratio us = stRandomUser inside fr ratio us) ∧
+    st.secs = fr.secs ∧
+    (∀ j ratio us, stRandomUserInSector inside st j ratio us = stRandomUserInSector inside fr j ratio us) := by
+  intro st fr
+  have h : st = fr := (no_stale_state k hs ops p R θ hR hok).1
+  rw [← h]
+  exact ⟨rfl, fun _ => rfl, fun _ _ => rfl, fun _ _ => rfl, rfl, fun _ _ _ => rfl⟩
+
+/-- In particular the sector cells of a `Cell3Sec` always have the sector radius of the *current*
+    radius and sit at the sector centres of the *current* position, radius and rotation. -/
+theorem sectors_follow_setters (hs : 0 < Circ.sqrt ((2 : ℕ) : α)) (ops : List (CellOp α)) (p : Pt α)
+    (R θ : α) (hR : 0 < R) (hok : OpsOk ops) :
+    let st := run (fresh .sec3 p R θ) ops
+    st.secs = mkSectors st.pos st.radius st.rot ∧ ∀ s ∈ st.secs, s.radius = secRadius st.radius := by
+  intro st
+  have h := (no_stale_state .sec3 hs ops p R θ hR hok).1
+  have hsec : st.secs = mkSectors st.pos st.radius st.rot :=
+    congrArg CellState.secs h
+  refine ⟨hsec, ?_⟩
+  intro s hmem
+  rw [hsec] at hmem
+  simp only [mkSectors, List.mem_map] at hmem
+  obtain ⟨_, _, rfl⟩ := hmem
+  rfl
+
+/-- the constructor `CellSquare(pos, side, rotation)` is the fresh square cell of radius `√2·side/2` -/
+theorem square_constructor_is_fresh (p : Pt α) (side θ : α) (hs : 0 < Circ.sqrt ((2 : ℕ) : α)) :
+    freshSquare p side θ = fresh .square p (Circ.sqrt ((2 : ℕ) : α) * side / ((2 : ℕ) : α)) θ :=
+  freshSquare_eq p side θ hs
+
+/-- a `CellWrap` stores only its own position: after any history on the wrapped cell (and any move of
+    the wrap) its vertices are those of a wrap around the freshly constructed cell. -/
+theorem wrap_no_stale_state (k : CellKind) (hs : 0 < Circ.sqrt ((2 : ℕ) : α)) (ops : List (CellOp α))
+    (p wp : Pt α) (R θ : α) (hR : 0 < R) (hok : OpsOk ops) :
+    let st := run (fresh k p R θ) ops
+    wrapVerts { pos := wp, inner := st } = wrapVerts { pos := wp, inner := fresh k st.pos st.radius st.rot } := by
+  intro st
+  have h : st = fresh k st.pos st.radius st.rot := (no_stale_state k hs ops p R θ hR hok).1
+  rw [← h]
+end state
+
+/-- the hypothesis `0 < sqrt 2` of the state theorems holds for the real scalar -/
+theorem sqrt_two_pos_real : 0 < (Circ.sqrt ((2 : ℕ) : ℝ) : ℝ) := by
+  simp only [Circ.sqrt]
+  exact Real.sqrt_pos.mpr (by norm_num)
+
+/-- **Negative witness for the `CellSquare` setters as they were before the repair** (`stepStale`: the
+    `pos` setter stored the new centre and left the corners): after moving the square with corners
+    `0`, `2+2j` to `5+5j` the cell does not contain its own centre. -/
+theorem square_pos_setter_was_stale :
+    let st := stepStale ({ kind := .square, pos := ((1 : ℚ), (1 : ℚ)), radius := 1, rot := 0,
+                           lower := (0, 0), upper := (2, 2), secs := [] } : CellState ℚ) (.setPos (5, 5))
+    rectInside { pos := st.pos, lower := st.lower, upper := st.upper } (1, 0) st.pos = false := by
+  decide +kernel
 
 /-! ## tie to the source: literal tables -/
 
